@@ -18,10 +18,16 @@ raises TraceError: the translator FAILS CLOSED.  In particular
   * `overwrite_*=True` on a buffer that belongs to an input (inputs must not be
     modified), and any later use of a buffer a library call was allowed to destroy.
 
-Naming: a `sys.settrace` line hook watches the local variables of the traced
-function; the value bound to local `v` becomes `<prefix>_v` (or `<prefix>_v<k>` when
-`v` is bound to several values in turn, k = 0, 1, ... in order of binding); returned
-values become `<prefix>_ret<i>`.  Unnamed intermediates are printed inline.
+Naming.  Entries registered with `inline=True` (kalman.py) print ONLY the returned values,
+`<prefix>_ret<i>`, as fully inlined expressions: the generated text then does not depend on
+the names of local variables, on the order of statements, on private helper functions of the
+module the work is delegated to, or on equivalent spellings (`a @ b`, `a.dot(b)`, `np.dot`,
+`np.matmul`; `np.eye` / `np.identity`; `M * s` / `np.multiply(M, s)`; `cholesky(lower=True)` /
+`cho_factor(lower=True)[0]` when only its lower triangle is read; positional / keyword
+arguments).  The proofs refer to these outputs only.  Other entries (tools/reg/c11.py) keep the
+named mode: a `sys.settrace` line hook watches the local variables of the traced function; the
+value bound to local `v` becomes `<prefix>_v` (or `<prefix>_v<k>` when `v` is bound to several
+values in turn); unnamed intermediates are printed inline.
 
 Every run VALIDATES the traced IR: an independent numpy interpreter of the IR (library
 primitives interpreted by their written Coq specifications: `cho_solve L B` =
@@ -225,9 +231,12 @@ class SymMat:
     def _node(self):
         return self._n
 
-    def _use(self):
+    def _use(self, tri_ok=False):
         if self._buf.dead:
             raise TraceError("use of a buffer after " + self._buf.dead)
+        if self.__dict__.get('_tri') and not tri_ok:
+            raise TraceError("the factor returned by cho_factor is only specified in its lower triangle: it may "
+                             "only be passed to cho_solve / solve_triangular(lower=True)")
         return self._node()
 
     def _named(self, var):
@@ -355,10 +364,10 @@ def _slice1(t, dim, s):
     return cuts.index(lo), cuts.index(hi)
 
 
-def _mat(x, what):
+def _mat(x, what, tri_ok=False):
     if not isinstance(x, SymMat):
         raise TraceError(f"{what}: operand {type(x).__name__} is not a symbolic matrix")
-    return x._use()
+    return x._use(tri_ok)
 
 
 def _mul(a, b):
@@ -474,14 +483,40 @@ class SymZeros(SymMat):
 # proxies for numpy / scipy.linalg names of the traced module
 
 class _NpProxy:
-    def eye(self, n, M=None, k=0, dtype=float):
+    def eye(self, N, M=None, k=0, dtype=float):
         if M is not None or k != 0 or dtype is not float:
             raise TraceError("np.eye: only eye(n) is modelled")
-        d = _tr().dim_of_int(_int(n, 'np.eye'), 'np.eye')
+        d = _tr().dim_of_int(_int(N, 'np.eye'), 'np.eye')
         return SymMat(Node(_tr(), 'eye', (), d, d))
 
     def identity(self, n, dtype=float):
         return self.eye(n, dtype=dtype)
+
+    # equivalent spellings of the modelled operations
+    def dot(self, a, b):
+        return _mul(a, b)
+
+    def matmul(self, x1, x2):
+        return _mul(x1, x2)
+
+    def multiply(self, x1, x2):
+        if isinstance(x1, SymMat) and isinstance(x2, SymMat):
+            raise TraceError("np.multiply: elementwise product of matrices")
+        return _scale(x2, x1) if isinstance(x1, SymMat) else _scale(x1, x2)
+
+    def add(self, x1, x2):
+        return _addsub('add', x1, x2)
+
+    def subtract(self, x1, x2):
+        return _addsub('sub', x1, x2)
+
+    def negative(self, x):
+        return -x if isinstance(x, SymMat) else _no_sym('np.negative')
+
+    def transpose(self, a, axes=None):
+        if axes is not None or not isinstance(a, SymMat):
+            raise TraceError("np.transpose: only transpose(matrix)")
+        return a.T
 
     def zeros(self, shape, dtype=float, order='C'):
         if dtype is not float:
@@ -495,6 +530,10 @@ class _NpProxy:
 
     def __getattr__(self, name):
         raise TraceError(f"np.{name} is not modelled")
+
+
+def _no_sym(what):
+    raise TraceError(f"{what}: operand is not a symbolic matrix")
 
 
 def _int(x, what):
@@ -537,13 +576,22 @@ def _p_cholesky(a, lower=False, overwrite_a=False, check_finite=True):
     return out
 
 
+def _p_cho_factor(a, lower=False, overwrite_a=False, check_finite=True):
+    """cho_factor(a, lower=True) = (c, True) where only the lower triangle of c is specified (= cholesky(a,
+    lower=True) there).  The value is recorded as the same primitive `cholesky a`, flagged so that it can only be
+    consumed by cho_solve / solve_triangular(lower=True), which read the lower triangle only."""
+    out = _p_cholesky(a, lower=lower, overwrite_a=overwrite_a, check_finite=check_finite)
+    out.__dict__['_tri'] = True
+    return out, True
+
+
 def _p_cho_solve(c_and_lower, b, overwrite_b=False, check_finite=True):
     if not (isinstance(c_and_lower, tuple) and len(c_and_lower) == 2):
         raise TraceError("cho_solve: first argument must be the pair (c, lower)")
     c, lower = c_and_lower
     if lower is not True:
         raise TraceError("cho_solve((c, False), ...): upper factor not specified")
-    cn, bn = _mat(c, 'cho_solve'), _mat(b, 'cho_solve')
+    cn, bn = _mat(c, 'cho_solve', tri_ok=True), _mat(b, 'cho_solve')
     _square(cn, 'cho_solve')
     if cn.cdim != bn.rdim:
         raise TraceError(f"cho_solve: dimensions differ: {cn.cdim} vs {bn.rdim}")
@@ -556,7 +604,7 @@ def _p_solve_triangular(a, b, trans=0, lower=False, unit_diagonal=False, overwri
                         check_finite=True):
     if lower is not True or trans not in (0, 'N') or unit_diagonal is not False:
         raise TraceError("solve_triangular: only (lower=True, trans=0, unit_diagonal=False) is specified")
-    an, bn = _mat(a, 'solve_triangular'), _mat(b, 'solve_triangular')
+    an, bn = _mat(a, 'solve_triangular', tri_ok=True), _mat(b, 'solve_triangular')
     _square(an, 'solve_triangular')
     if an.cdim != bn.rdim:
         raise TraceError(f"solve_triangular: dimensions differ: {an.cdim} vs {bn.rdim}")
@@ -571,7 +619,7 @@ def _p_expm(a):
     return _oracle('expm', n)
 
 
-PROXIES = dict(np=_NpProxy(), cholesky=_p_cholesky, cho_solve=_p_cho_solve,
+PROXIES = dict(np=_NpProxy(), cholesky=_p_cholesky, cho_factor=_p_cho_factor, cho_solve=_p_cho_solve,
                solve_triangular=_p_solve_triangular, expm=_p_expm)
 # oracles become Section variables; the others are definitions of Spec/LibSpecsMx.v
 ORACLES = ('cholesky', 'expm')
@@ -608,11 +656,11 @@ def patched(mod):
 REGISTRY = []
 
 
-def register(gen_module, pymod, func, prefix, dims, params, sampler, nval=60, tol=1e-9):
+def register(gen_module, pymod, func, prefix, dims, params, sampler, nval=60, tol=1e-9, inline=False):
     """dims: [(atom, dummy prime)]; params: [(python name, ('n',) | ('m','n') | 'scalar')];
     sampler(rng) -> (dict atom -> size, dict param -> ndarray/float)."""
     REGISTRY.append(dict(gen_module=gen_module, pymod=pymod, func=func, prefix=prefix, dims=dims,
-                         params=params, sampler=sampler, nval=nval, tol=tol))
+                         params=params, sampler=sampler, nval=nval, tol=tol, inline=inline))
 
 
 def live_function(e):
@@ -670,8 +718,8 @@ def trace_entry(e):
             rets.append(o._use())
     finally:
         TR = None
-    # names
-    for var, lst in t.bindings.items():
+    # names (named mode only; inline entries print nothing but the outputs)
+    for var, lst in ({} if e.get('inline') else t.bindings).items():
         for k, nd in enumerate(lst):
             if nd.name is None:
                 nd.name = f"{e['prefix']}_{var}" + (str(k) if len(lst) > 1 else "")
@@ -1075,10 +1123,10 @@ def _sample_cpm(rng):
 
 register('Kalman', 'pyins.kalman', 'correct', 'correct', [('n', 7), ('m', 5)],
          [('x', ('n',)), ('P', ('n', 'n')), ('z', ('m',)), ('H', ('m', 'n')), ('R', ('m', 'm'))],
-         _sample_correct)
+         _sample_correct, inline=True)
 register('Kalman', 'pyins.kalman', 'compute_process_matrices', 'cpm', [('n', 7)],
          [('F', ('n', 'n')), ('Q', ('n', 'n')), ('dt', 'scalar')],
-         _sample_cpm)
+         _sample_cpm, inline=True)
 
 
 def main(argv):
